@@ -184,7 +184,7 @@ func Main(args []string) int {
 	rep.Set("configurations", perCfg)
 	rep.Set("configurations_explored", active)
 	rep.Set("bounds", map[string]interface{}{
-		"witness_counts": []int{1, 3, 4}, "blocks_per_history": depth, "ops_per_block": "0..2 (listed pairs)",
+		"witness_counts": []int{1, 2, 3, 4}, "blocks_per_history": depth, "ops_per_block": "0..2 (listed pairs)",
 		"trailing_empty_blocks": quietBlocks, "alphabet_sizes": alphabetSizes(cs), "search": "breadth-first, all successors of every new state, dedup on projected state digest + model digest",
 	})
 	rep.Set("alphabet", alphabetNames(cs, quick))
